@@ -30,13 +30,14 @@ theorem cut_case {s t : Str} (h : upper s = upper t) (circular directional : Boo
 
 example : upper "ggTCtc".toList = upper "GGtctC".toList := by decide
 
-/-- Known finding `C10-linear-end-reverse-site` (kernel-checked witness): on the LINEAR part
-`AAGGACAAAAATTTTTGTCC` with site GGAC, skip 0, overhang 5 the layout is well-formed and the
-geometry dictates the fragment (AAAAA, "", TTTTT), yet the code returns nothing. -/
-theorem cut_linear_end_reverse_site_witness :
+/-- Regression (former finding `C10-linear-end-reverse-site`, repaired in /repo by 2839bce): on the
+LINEAR part `AAGGACAAAAATTTTTGTCC` with site GGAC, skip 0, overhang 5 — a backward-pointing site in
+the last bases, overhang longer than the site — the code returns the fragment the geometry dictates. -/
+example :
     wfLinear ⟨"GGAC".toList, 0, 5⟩ "AAGGACAAAAATTTTTGTCC".toList = true ∧
     digestLin ⟨"GGAC".toList, 0, 5⟩ "AAGGACAAAAATTTTTGTCC".toList = [("AAAAA".toList, [], "TTTTT".toList)] ∧
-    triples (cutWithEnzyme "AAGGACAAAAATTTTTGTCC".toList false true (enzymeOf "" ⟨"GGAC".toList, 0, 5⟩)) = some [] := by
+    triples (cutWithEnzyme "AAGGACAAAAATTTTTGTCC".toList false true (enzymeOf "" ⟨"GGAC".toList, 0, 5⟩)) =
+      some [("AAAAA".toList, [], "TTTTT".toList)] := by
   decide
 
 end PolyVerif.Props.C10
